@@ -475,20 +475,33 @@ func groupIndicesPassedTo(fn *ssa.Function, submatch *ssa.Call, callee *ssa.Func
 			if !ok || c.Call.StaticCallee() != callee || len(c.Call.Args) == 0 {
 				continue
 			}
-			ld, ok := c.Call.Args[0].(*ssa.UnOp)
-			if !ok {
-				continue
+			// the argument is the group itself, or a variable that holds the group on some path (phi)
+			var collect func(v ssa.Value, d int)
+			seen := map[ssa.Value]bool{}
+			collect = func(v ssa.Value, d int) {
+				if seen[v] || d > 4 {
+					return
+				}
+				seen[v] = true
+				if ph, isPhi := v.(*ssa.Phi); isPhi {
+					for _, e := range ph.Edges {
+						collect(e, d+1)
+					}
+					return
+				}
+				ld, ok := v.(*ssa.UnOp)
+				if !ok {
+					return
+				}
+				ia, ok := ld.X.(*ssa.IndexAddr)
+				if !ok || ia.X != ssa.Value(submatch) {
+					return
+				}
+				if iv, ok := su.ConstInt(ia.Index); ok {
+					out = append(out, int(iv))
+				}
 			}
-			ia, ok := ld.X.(*ssa.IndexAddr)
-			if !ok || ia.X != ssa.Value(submatch) {
-				continue
-			}
-			k, ok := ia.Index.(*ssa.Const)
-			if !ok {
-				continue
-			}
-			iv, _ := constant.Int64Val(k.Value)
-			out = append(out, int(iv))
+			collect(c.Call.Args[0], 0)
 		}
 	}
 	sort.Ints(out)
